@@ -138,7 +138,9 @@ theorem bc_receive_isSome (sk : Skeleton) (b : Bc.State) (t k x : Nat) (hc : b.c
   simp only [Bc.step, hc, hl, hs, and_self, if_true]
   split
   · exact ⟨_, rfl⟩
-  · split <;> exact ⟨_, rfl⟩
+  · split
+    · exact ⟨_, rfl⟩
+    · split <;> exact ⟨_, rfl⟩
 
 theorem canStep_of (sk : Skeleton) {s : State} {th : Thread} (a : Act) (hm : th ∈ actThreads a)
     (h : (step sk s a).isSome = true) : CanStep sk s th := ⟨a, hm, h⟩
@@ -159,7 +161,7 @@ theorem stub_can_step (c : Nat) (hl : live s (.stub c) = true) (hnp : (s.calls c
     obtain ⟨b', hb'⟩ := bc_receive_isSome sk s.bc c c (s.calls c).ctx hbc hlk hab
     refine canStep_of sk (.callReceive c) (by simp [actThreads]) ?_
     simp only [step, hc, hpc, hb', and_self, if_true]
-    split <;> rfl
+    (repeat' split) <;> rfl
   | registered => exact canStep_of sk (.callSpawn c) (by simp [actThreads]) (by simp [step, hc, hpc])
   | spawned => exact canStep_of sk (.callWriteFail c 0) (by simp [actThreads]) (by simp [step, hc, hpc])
   | decoded => exact canStep_of sk (.callReturnOk c) (by simp [actThreads]) (by simp [step, hc, hpc])
